@@ -65,6 +65,9 @@ fn walk(root: &Path, dir: &Path, out: &mut Snapshot) -> io::Result<()> {
         if md.is_dir() {
             out.insert(rel, Entry::Dir);
             walk(root, &p, out)?;
+        } else if md.file_type().is_symlink() {
+            // never follow links (a fault injector may point one at /dev/full)
+            out.insert(rel, Entry::Dir);
         } else {
             let bytes = fs::read(&p)?;
             out.insert(
